@@ -179,7 +179,7 @@ def probe_energy_work(inp: Dict[str, Any]) -> Dict[str, Any]:
     out = {}
     for dt in (inp["dt"], inp["dt"] / 2):
         n = int(round(T / dt))
-        r = _md(names, dt, inp.get("temp", 600.0), inp.get("seed", 2), False, n, sp_over=inp.get("sp_over"))
+        r = _md(names, dt, inp.get("temp", 600.0), inp.get("seed", 2), False, n, sp_over=inp.get("sp_over"), coords=inp.get("coords"), velocities=inp.get("velocities"))
         D = 0.0
         for m, nm in enumerate(names):
             X, F, Ep = r["mols"][m]["coordinates"], r["mols"][m]["forces"], r["mols"][m]["data"][:, 2]
@@ -306,6 +306,16 @@ def gen_cases(ctx: Ctx):
     # excited active surfaces beyond the first: the energy written must be the one whose gradient moves the atoms
     cases.append(("energy_work", {"names": [str(rng.choice(["ch2o", "h2o"]))], "dt": 0.4, "time": 2.4, "seed": int(rng.integers(1, 999)), "temp": 300.0,
                                   "sp_over": {"method": str(rng.choice(["AM1", "PM3"])), "excited_states": {"n_states": 3, "method": "cis", "tolerance": 1e-8}, "active_state": int(rng.choice([2, 3]))}}))
+    # the hand-written force evaluators drive the dynamics too: a molecule with an N-X pair (its own core-core derivative mask), and a non-bonded contact that
+    # crosses the switching distance of the dispersion damping during the run (two H2 approaching each other head-on)
+    v0 = 0.016
+    extra_w = [{"names": ["hcn"], "dt": 0.4, "time": 2.4, "temp": 300.0, "sp_over": {"method": str(rng.choice(["AM1", "PM3", "MNDO"])), "analytical_gradient": [[True], [True, "numerical"]][ctx.seed % 2]}},
+               {"names": ["h2_pair"], "dt": 0.1, "time": 5.0, "temp": 0.0, "velocities": [[[v0, 0, 0], [v0, 0, 0], [-v0, 0, 0], [-v0, 0, 0]]],
+                "sp_over": {"method": "AM1", "dispersion": True, "analytical_gradient": [[True], [True, "numerical"]][(ctx.seed + 1) % 2]}}]
+    for e_ in extra_w:
+        cases.append(("energy_work", dict(e_, seed=int(rng.integers(1, 999)))))
+    # s,p,d basis: momenta of an isolated molecule (the d-orbital rotation matrices must be orthogonal for the torque to vanish)
+    cases.append(("conservation", {"names": ["h2s"], "method": "PM6", "dt": 0.2, "steps": 8, "stub": False, "seed": int(rng.integers(1, 999)), "tol_L": 2e-8}))
     cases.append(("order", {"names": ["h2o"], "dt": 0.4, "time": 6.4, "stub": True, "seed": int(rng.integers(1, 999))}))
     cases.append(("driver_reuse", {"first": ["ch4", "h2o"], "second": ["h2o", "ch4"], "dt": 0.5, "steps": 8, "stub": True}))
     if ctx.thorough:
